@@ -406,7 +406,7 @@ def build_cons(cons, vals=None, flags=None, form=0):
     if form == 1:
         groups = {}
         for j, c in enumerate(cons):
-            if c["f"] == "-" and c["p"] and c["p"][0].isdigit():
+            if c["p"] and c["p"][0].isdigit():
                 groups.setdefault(tuple(c["p"][1:]), []).append(j)
         for suffix, js in groups.items():
             if len(js) < 2:
@@ -414,6 +414,9 @@ def build_cons(cons, vals=None, flags=None, form=0):
             js = sorted(js, key=lambda j: -int(cons[j]["p"][0]))
             idx = jnp.array([int(cons[j]["p"][0]) for j in js], dtype=jnp.int32)
             vs = jnp.stack([vals[j] if vals is not None else jnp.array(cons[j]["v"], dtype=jnp.int32) for j in js])
+            if any(cons[j]["f"] != "-" for j in js):      # a vectorised Mask under the index array (elementwise flags)
+                fl = jnp.stack([(flags[j] if flags is not None and cons[j]["f"] != "-" else jnp.array(cons[j]["f"] != "F")) for j in js])
+                vs = Mask(vs, fl)
             pp = (idx,) + path_py(list(suffix))
             chm = chm | C[pp].set(vs)
             done.update(js)
